@@ -260,4 +260,73 @@ theorem c11_helper_footprint : helperUses = [
     ("A", "triangularView.transpose", "UploA", "else(UploA == UploB)"),
     ("fac", "compute", "UploB", "")] := by decide
 
+/-! ### what the wrappers do to their third-party solver objects (`solverFields`, `solverCalls`, `configCallsElsewhere`, regenerated) -/
+open Gen.OpsFootprint in
+/-- **every use of a solver object is a documented one** (decided over the regenerated table, which lists EVERY member call a wrapper method
+    makes on a SparseLU / PartialPivLU / LLT / SimplicialLLT / ConjugateGradient / BKLDLT member, on the `Fac&` parameter of the three
+    `SymShiftInvertHelper::factorize` and on local references to them, and every other occurrence of such an object):
+    `compute`, `info()`, `solve`, `matrixL()/matrixU()/permutationP()/permutationPinv()`, the single configuration call `isSymmetric(true)`, and the
+    hand-over of `m_solver` to the helper; no function with the name of a solver configuration function is called on anything else; every solver
+    member is factorized somewhere; every wrapper has exactly one solver member. -/
+theorem c11_solver_calls_documented :
+    (∀ e : SolverCall, e ∈ solverCalls → documentedCall e.call e.args = true) ∧
+    configCallsElsewhere = [] ∧
+    (∀ f ∈ solverFields, ∃ e : SolverCall, e ∈ solverCalls ∧ e.cls = f.1 ∧ e.obj = f.2.1 ∧ (e.call = "compute" ∨ e.call = "(use)")) ∧
+    (solverFields.map (·.1)).Nodup ∧ solverFields.length = 10 ∧
+    ("SparseSymShiftSolve", "set_shift", "m_solver", "SparseLU", "isSymmetric", "true") ∈ solverCalls ∧
+    ("SymShiftInvertHelper", "factorize", "fac", "template parameter Fac", "isSymmetric", "true") ∈ solverCalls := by
+  refine ⟨by decide, by decide, by decide, by decide, by decide, by decide, by decide⟩
+
+open Gen.OpsFootprint in
+/-- lifted to ALL names (`only_documented_names`): whatever member function is not in the documented list — `setPivotThreshold`, `setTolerance`,
+    `setMaxIterations`, `analyzePattern`, `factorize`, `preconditioner`, anything a later Eigen adds — no wrapper method calls it on a solver object -/
+theorem c11_only_documented_calls (name : String) (hn : name ∉ documentedNames) (hu : name ≠ "(use)") :
+    ∀ e : SolverCall, e ∈ solverCalls → e.call ≠ name :=
+  only_documented_names solverCalls c11_solver_calls_documented.1 name hn hu
+
+open Gen.OpsFootprint in
+/-- **no pivot-threshold change.**  No wrapper calls `setPivotThreshold`; hence for EVERY history of wrapper-method invocations (any methods of any
+    wrappers, any number of times, any order, modelled as a list of recorded solver calls) a SparseLU object still has the pivot threshold it was
+    constructed with (1.0: partial pivoting, multipliers bounded by 1, `c11_partial_pivoting`), and the iterative solver keeps its default tolerance
+    and iteration limit. -/
+theorem c11_no_pivot_threshold_change :
+    (∀ e : SolverCall, e ∈ solverCalls → e.call ≠ "setPivotThreshold" ∧ e.call ≠ "setTolerance" ∧ e.call ≠ "setMaxIterations") ∧
+    (∀ hist : List SolverCall, (∀ e ∈ hist, e ∈ solverCalls) → ∀ c : LUConfig, (c.run hist).pivotThreshold = c.pivotThreshold) ∧
+    (∀ hist : List SolverCall, (∀ e ∈ hist, e ∈ solverCalls) → (LUConfig.initial.run hist).pivotThreshold = none) := by
+  have h := fun (nm : String) (hn : nm ∉ documentedNames) (hu : nm ≠ "(use)") => c11_only_documented_calls nm hn hu
+  have hp := h "setPivotThreshold" (by decide) (by decide)
+  refine ⟨fun e he => ⟨hp e he, h "setTolerance" (by decide) (by decide) e he, h "setMaxIterations" (by decide) (by decide) e he⟩, ?_, ?_⟩
+  · intro hist hh c
+    exact LUConfig.run_threshold hist c (fun e he => hp e (hh e he))
+  · intro hist hh
+    exact LUConfig.run_threshold hist LUConfig.initial (fun e he => hp e (hh e he))
+
+/-- the hypothesis is satisfiable and the conclusion is not vacuous: the history `set_shift; perform_op; set_shift` of SparseSymShiftSolve switches the
+    symmetric ordering on and leaves the threshold alone … -/
+example : LUConfig.initial.run [("SparseSymShiftSolve", "set_shift", "m_solver", "SparseLU", "isSymmetric", "true"),
+      ("SparseSymShiftSolve", "set_shift", "m_solver", "SparseLU", "compute", "mat"), ("SparseSymShiftSolve", "perform_op", "m_solver", "SparseLU", "solve", "x"),
+      ("SparseSymShiftSolve", "set_shift", "m_solver", "SparseLU", "isSymmetric", "true")] = ⟨true, none⟩ := by decide
+/-- … whereas a `setPivotThreshold` call would show up in the state (so a table containing one cannot satisfy the theorem) -/
+example : (LUConfig.initial.run [("SparseSymShiftSolve", "set_shift", "m_solver", "SparseLU", "setPivotThreshold", "Eigen::NumTraits<Scalar>::dummy_precision()")]).pivotThreshold
+    = some "Eigen::NumTraits<Scalar>::dummy_precision()" := by decide
+
+/-- why the threshold matters (`SparseLUImpl::pivotL`): a diagonal entry `d` accepted as pivot with threshold `t > 0` bounds every multiplier of its
+    column by `1 / t`; for the constructor's `t = 1` this is partial pivoting (`|a / d| ≤ 1`), for `t = 10⁻¹²` the bound is `10¹²` -/
+theorem c11_partial_pivoting {K : Type} [Field K] [LinearOrder K] [IsStrictOrderedRing K] (F : FieldFns K) (t pivmax d : K) (ht : 0 < t)
+    (hacc : @diagPivotAccepted K _ (scOfField F) t pivmax d = true) (a : K) (ha : |a| ≤ pivmax) :
+    |a / d| ≤ 1 / t ∧ (t = 1 → |a / d| ≤ 1) := by
+  refine ⟨diagPivot_multiplier_bound F t pivmax d ht hacc a ha, ?_⟩
+  intro h1; subst h1
+  exact diagPivot_partial F pivmax d hacc a ha
+
+/-- the bound is attained: with `t = 10⁻⁶` the diagonal `d = 10⁻⁶` of a column with an off-diagonal entry `1` is accepted and the multiplier is `10⁶`;
+    with `t = 1` it is rejected -/
+example : letI := scOfField (⟨id, fun x _ => x, 0, 0⟩ : FieldFns ℚ)
+    diagPivotAccepted (α := ℚ) (1 / 1000000) 1 (1 / 1000000) = true ∧ diagPivotAccepted (α := ℚ) 1 1 (1 / 1000000) = false ∧
+    |(1 : ℚ) / (1 / 1000000)| = 1000000 := by
+  refine ⟨?_, ?_, ?_⟩
+  · simp [diagPivotAccepted]
+  · simp [diagPivotAccepted]; norm_num
+  · norm_num
+
 end C11
